@@ -151,6 +151,12 @@ def run(case, ctx):
         for kk, v in alt.items():
             if not np.allclose(v, vals[kk], rtol=2e-5, atol=1e-9):
                 viols.append(viol("D3-loss-positional-pairing" if kk[0] != "norm" else "normalized-loss-order-dependent", f"loss {kk} depends on block storage order: {vals[kk].tolist()} vs {v.tolist()} (orders {ox}/{list(y.keys())} vs {ox[::-1]}/{types})"))
+        # traced under jit (keys sorted inside the trace)
+        jl = [np.asarray(jax.jit(ml.smse_loss)(x, y)), np.asarray(jax.jit(lambda u, v: ml.timestep_smse_loss(u, v, steps))(x, y)), np.asarray(jax.jit(ml.normalized_smse_loss)(x, y))]
+        evals += 3
+        for nm, v, base in zip(("smse", "timestep", "normalized"), jl, (vals[("smse", "mean")], vals[("ts", "mean")], vals[("norm", None)])):
+            if not np.allclose(v, base, rtol=5e-5, atol=1e-8):
+                viols.append(viol("D3-loss-positional-pairing" if (ox != list(y.keys()) and nm != "normalized") else f"{nm}-loss-under-jit", f"jit({nm})={v.tolist()} != eager {base.tolist()} (orders {ox} / {list(y.keys())})"))
         # zero on equal arguments stored differently
         xe = mk(xb, oy)
         z = [np.asarray(ml.smse_loss(x, xe)), np.asarray(ml.timestep_smse_loss(x, xe, steps)), np.asarray(ml.normalized_smse_loss(x, xe))]
